@@ -3,4 +3,4 @@ Require Extraction.
 From Coq Require Import ExtrOcamlBasic ZArith NArith String.
 From SV Require Import Model.Parser.
 Extraction Language OCaml.
-Extraction "c21_model.ml" BinInt.Z.add BinNat.N.add parse_command upper_ascii trim utf8_valid dec.
+Extraction "c21_model.ml" BinInt.Z.add BinNat.N.add parse_command upper_ascii trim utf8_valid dec client_tokens client_command.
